@@ -289,3 +289,95 @@ fn refused_while_free(cx: &mut Ctx) {
         }
     }
 }
+
+/// C16 — while a pool is paused no new client transaction is started on its servers; after
+/// RESUME every held client proceeds (the latter is the liveness oracle).
+pub fn c16_pause(cx: &mut Ctx) {
+    let h = cx.h;
+    // pause intervals from the admin's own records: (scope, ack seq of PAUSE, send seq of RESUME)
+    let mut intervals: Vec<(String, u64, u64, u64)> = Vec::new();
+    for a in h.clients.values().filter(|c| c.role == "admin") {
+        let mut open: Option<(String, u64)> = None;
+        for s in &a.steps {
+            if s.op != "send" {
+                continue;
+            }
+            let sql = proto::split_all(&s.sent).0.first().and_then(|m| proto::Reader::new(&m.body).cstr()).unwrap_or_default();
+            let up = sql.trim().to_ascii_uppercase();
+            if up.starts_with("PAUSE") {
+                if server_error(&s.msgs).is_some() || pooler_error(&s.msgs).is_some() || !step_ok(s) {
+                    continue;
+                }
+                open = Some((sql.trim()[5..].trim().to_string(), s.done_seq));
+            } else if up.starts_with("RESUME") {
+                if let Some((scope, ack)) = open.take() {
+                    intervals.push((scope, ack, s.start_seq, s.done_seq));
+                }
+            }
+        }
+        if let Some((scope, ack)) = open {
+            intervals.push((scope, ack, u64::MAX, u64::MAX));
+        }
+    }
+    for (scope, ack, resume_sent, resume_acked) in &intervals {
+        let in_scope = |db: &str, user: &str| -> bool {
+            if scope.is_empty() {
+                return true;
+            }
+            let parts: Vec<&str> = scope.split(',').map(|x| x.trim()).collect();
+            parts.len() == 2 && parts[0] == db && parts[1] == user
+        };
+        for c in h.clients.values() {
+            if !is_data_client(c) || !in_scope(&c.database, &c.user) {
+                continue;
+            }
+            let session = cx.pool_mode(&c.database, &c.user) == "session";
+            let mut holding = false; // does the client hold a server when this step starts?
+            for s in &c.steps {
+                if s.op != "send" && s.op != "copyin" {
+                    continue;
+                }
+                let starts_txn = !holding;
+                // after this step: in transaction mode the server is kept iff status != I;
+                // in session mode it is kept for good once the first request was served
+                let after = match s.outcome {
+                    StepOutcome::Ready(b'I') => session,
+                    StepOutcome::Ready(_) => true,
+                    _ => false,
+                };
+                if starts_txn && s.start_seq > *ack && s.start_seq < *resume_sent {
+                    // sent after the PAUSE was acknowledged: must not reach a server before RESUME is sent
+                    let mut first: Option<u64> = None;
+                    for t in &s.tags {
+                        if let Some(v) = cx.ix.units_by_tag.get(t) {
+                            for (ci, ui) in v {
+                                let u = &h.backend_conns[*ci].units[*ui];
+                                if is_pooler_prepare_unit(u) {
+                                    continue;
+                                }
+                                if u.first_seq >= s.start_seq && first.map(|f| u.first_seq < f).unwrap_or(true) {
+                                    first = Some(u.first_seq);
+                                }
+                            }
+                        }
+                    }
+                    cx.probe("c16_txn_sent_while_paused");
+                    match first {
+                        Some(x) if x < *resume_sent => {
+                            cx.v("C16", "transaction_started_while_paused", &format!("C16/transaction_started_while_paused/{}", if session { "session" } else { "transaction" }), x, format!("client {} step {} was sent (seq {}) after the PAUSE {:?} was acknowledged (seq {}) and reached a server at seq {}, before RESUME was sent (seq {})", c.id, s.idx, s.start_seq, scope, ack, x, resume_sent));
+                        }
+                        Some(x) if x > *resume_sent => {
+                            cx.probe("c16_client_held_then_released");
+                            let _ = resume_acked;
+                        }
+                        _ => {}
+                    }
+                }
+                holding = after;
+            }
+        }
+    }
+    if !intervals.is_empty() {
+        cx.probe("c16_pause_interval");
+    }
+}
